@@ -108,6 +108,8 @@ type c20Obs struct {
 	Suppressed bool   `json:"suppressed"`
 	Ret        int64  `json:"ret"`
 	Note       string `json:"note,omitempty"`
+	Done0      bool   `json:"done0,omitempty"`     // atomic-step runs: the first retirement's done channel is closed
+	GenClosed0 bool   `json:"genclosed0,omitempty"` // ... and its old generation's Close() has returned
 }
 
 type c20Result struct {
@@ -569,7 +571,11 @@ type c20Sched struct {
 
 func (s *c20Sched) yield(fn, label string) {
 	if label == "spawned" {
-		th := &c20Thread{kind: "releaser", resume: make(chan struct{}), parked: make(chan c20Park, 1)}
+		kind := "releaser"
+		if strings.HasPrefix(fn, "startControlPlaneRetirement") {
+			kind = "retirer"
+		}
+		th := &c20Thread{kind: kind, resume: make(chan struct{}), parked: make(chan c20Park, 1)}
 		th.at = c20Park{fn: fn, label: "spawned"}
 		s.spawned <- th
 		<-th.resume
@@ -647,7 +653,19 @@ func c20RunMicro(cs c20MicroCase) (res c20MicroResult) {
 	var dones []chan struct{}
 	var closed []bool
 	var threads []*c20Thread
-	lastTaken := -1
+	var lastTaken, firstDone <-chan struct{}
+	genClosed0 := false
+	isClosed := func(ch <-chan struct{}) bool {
+		if ch == nil {
+			return false
+		}
+		select {
+		case <-ch:
+			return true
+		default:
+			return false
+		}
+	}
 
 	observe := func() c20Obs {
 		supp, _ := outbounddialer.VerifC20Suppression()
@@ -665,6 +683,16 @@ func c20RunMicro(cs c20MicroCase) (res c20MicroResult) {
 		}
 		return c20Obs{Pending: m.reloadPending.Load(), Active: m.reloadActive.Load(), Reloading: m.reloading.Load(),
 			Supp: supp, Qlen: len(m.reloadReqs), Code: c20CodeName(code), Msg: msg}
+	}
+	observeMicro := func() c20Obs {
+		o := observe()
+		if firstDone == nil && m.mu.TryLock() { // the parked holder may be inside the critical section
+			firstDone = m.pendingRetirementDone
+			m.mu.Unlock()
+		}
+		o.Done0 = isClosed(firstDone)
+		o.GenClosed0 = genClosed0
+		return o
 	}
 	start := func(th *c20Thread, body func() int64) {
 		th.resume = make(chan struct{})
@@ -711,12 +739,7 @@ func c20RunMicro(cs c20MicroCase) (res c20MicroResult) {
 						m.mu.Lock()
 						taken := m.pendingRetirementDone
 						m.mu.Unlock()
-						lastTaken = -1
-						for i, ch := range dones {
-							if (<-chan struct{})(ch) == taken {
-								lastTaken = i
-							}
-						}
+						lastTaken = taken
 						m.finishReloadSuccess()
 					case "H":
 						m.beginHandoff()
@@ -729,6 +752,10 @@ func c20RunMicro(cs c20MicroCase) (res c20MicroResult) {
 						m.mu.Lock()
 						m.pendingRetirementDone = ch
 						m.mu.Unlock()
+					case "RS":
+						// the real retirement goroutine on an empty old generation (nothing to drain)
+						m.setPendingReloadMetadata(time.Now(), 0)
+						m.startControlPlaneRetirement(log, &control.ControlPlane{}, &control.ControlPlane{}, func() {}, false, false)
 					default:
 						panic("unknown holder op " + op.Op)
 					}
@@ -747,7 +774,7 @@ func c20RunMicro(cs c20MicroCase) (res c20MicroResult) {
 		}
 	}
 	// which retirement channel a release goroutine waits for: the one published when it was spawned
-	waitsFor := map[*c20Thread]int{}
+	waitsFor := map[*c20Thread]<-chan struct{}{}
 	enabled := func(th *c20Thread) bool {
 		if th.at.done {
 			return false
@@ -756,8 +783,7 @@ func c20RunMicro(cs c20MicroCase) (res c20MicroResult) {
 			return len(m.reloadReqs) > 0
 		}
 		if th.kind == "releaser" && strings.Contains(th.at.label, "recv") {
-			d, ok := waitsFor[th]
-			return ok && d < len(closed) && closed[d]
+			return isClosed(waitsFor[th])
 		}
 		return true
 	}
@@ -784,13 +810,22 @@ func c20RunMicro(cs c20MicroCase) (res c20MicroResult) {
 			select {
 			case nt := <-sched.spawned:
 				// the goroutine waits on the channel that finishReloadSuccess took
-				waitsFor[nt] = lastTaken
+				if nt.kind == "releaser" {
+					waitsFor[nt] = lastTaken
+				}
 				threads = append(threads, nt)
 			case <-time.After(c20Long()):
 				stuck("spawn-stuck")
 			}
 		}
-		res.Recs = append(res.Recs, c20MicroRec{T: ti, Fn: before.fn, Label: before.label, Obs: observe(), Done: th.at.done, Ret: th.at.ret})
+		if th.kind == "retirer" {
+			for _, l := range strings.Split(before.label, ",") {
+				if l == "tail:close" && th.at.ret != -2 {
+					genClosed0 = true // the statement containing oldControlPlane.Close() has been executed
+				}
+			}
+		}
+		res.Recs = append(res.Recs, c20MicroRec{T: ti, Fn: before.fn, Label: before.label, Obs: observeMicro(), Done: th.at.done, Ret: th.at.ret})
 		return true
 	}
 	matches := func(th *c20Thread, until string) bool {
@@ -810,7 +845,10 @@ func c20RunMicro(cs c20MicroCase) (res c20MicroResult) {
 		if d >= 0 && d < len(dones) && !closed[d] {
 			close(dones[d])
 			closed[d] = true
-			res.Recs = append(res.Recs, c20MicroRec{T: -1, Fn: "close", Close: d, Obs: observe()})
+			if d == 0 {
+				genClosed0 = true // a harness-made retirement: generation gone and done closed in one go
+			}
+			res.Recs = append(res.Recs, c20MicroRec{T: -1, Fn: "close", Close: d, Obs: observeMicro()})
 		}
 	}
 	for _, st := range cs.Steps {
@@ -885,6 +923,10 @@ func c20RunMicro(cs c20MicroCase) (res c20MicroResult) {
 				// it would wait for a request for ever: feed it one so that it can end
 				m.reloadReqs <- reloadRequest{}
 			}
+			if !enabled(th) {
+				continue // a release goroutine whose retirement has not finished yet: its turn comes later
+			}
+			wasGo := th.at.label == "go"
 			sched.cur = th
 			th.resume <- struct{}{}
 			select {
@@ -893,10 +935,16 @@ func c20RunMicro(cs c20MicroCase) (res c20MicroResult) {
 			case <-time.After(c20Long()):
 				th.at = c20Park{done: true, ret: -2}
 			}
-			if len(sched.spawned) > 0 {
-				nt := <-sched.spawned
-				waitsFor[nt] = lastTaken
-				threads = append(threads, nt)
+			if wasGo {
+				// the spawned goroutine must register with THIS case's scheduler before the case ends
+				select {
+				case nt := <-sched.spawned:
+					if nt.kind == "releaser" {
+						waitsFor[nt] = lastTaken
+					}
+					threads = append(threads, nt)
+				case <-time.After(c20Long()):
+				}
 			}
 			any = true
 		}
